@@ -1811,6 +1811,24 @@ impl ElementMut for XmlElement {
         Ok(attr.map(XmlAttr::from))
     }
 
+    fn remove_attribute_node(&self, old_attr: XmlAttr) -> error::Result<XmlAttr> {
+        // NOT_FOUND_ERR: "Raised if oldAttr is not an attribute of the element."
+        let prefix = old_attr.attribute.borrow().prefix().map(|v| v.to_string());
+        let present = self
+            .element
+            .borrow()
+            .attribute_qname(prefix.as_deref(), old_attr.name().as_str());
+        match present {
+            Some(present) if Rc::ptr_eq(&present, &old_attr.attribute) => {
+                self.element
+                    .borrow_mut()
+                    .remove_attribute_qname(prefix.as_deref(), old_attr.name().as_str());
+                Ok(old_attr)
+            }
+            _ => Err(error::DomException::NotFoundErr)?,
+        }
+    }
+
     fn normalize(&self) {
         todo!()
     }
